@@ -14,7 +14,8 @@ contract('saml2_tophat.validate:validate_on_or_after',
                   ('value', 'implies(truthy(not_on_or_after), result == epoch(not_on_or_after))'),
                   ('C04-window', 'implies(truthy(not_on_or_after), NOW <= epoch(not_on_or_after) + slack)')],
          raises={'ResponseLifetimeExceed': 'truthy(not_on_or_after) and NOW > epoch(not_on_or_after) + slack',
-                 'Exception': 'truthy(not_on_or_after) and not parsable(not_on_or_after)'},
+                 'ValueError': 'truthy(not_on_or_after) and not parsable(not_on_or_after)',
+                 'AttributeError': 'truthy(not_on_or_after) and not parsable(not_on_or_after)'},
          modifies=[], clauses_from={'C04': ['C04-window', 'raises.ResponseLifetimeExceed']})
 
 contract('saml2_tophat.validate:validate_before',
@@ -22,5 +23,6 @@ contract('saml2_tophat.validate:validate_before',
          ensures=[('true', 'result is True'),
                   ('C04-window', 'implies(truthy(not_before), epoch(not_before) <= NOW + slack)')],
          raises={'ToEarly': 'truthy(not_before) and epoch(not_before) > NOW + slack',
-                 'Exception': 'truthy(not_before) and not parsable(not_before)'},
+                 'ValueError': 'truthy(not_before) and not parsable(not_before)',
+                 'AttributeError': 'truthy(not_before) and not parsable(not_before)'},
          modifies=[], clauses_from={'C04': ['C04-window', 'raises.ToEarly']})
